@@ -22,8 +22,8 @@ def sact! (s : String) : Option SAct :=
   match s.splitOn ":" with
   | ["S", tip, d, dst] => some (.send (name! tip) (sdata! d) (name! dst))
   | ["L", tip, d] => some (.loc (name! tip) (sdata! d))
-  | ["T", n, d] => some (.set (name! n) (nat! d))
-  | ["O", n, d] => some (.once (name! n) (nat! d))
+  | ["T", n, d] => some (.set (name! n) (delayBits d))
+  | ["O", n, d] => some (.once (name! n) (delayBits d))
   | ["C", n] => some (.cancel (name! n))
   | _ => none
 
@@ -111,7 +111,7 @@ structure McSt where
   nodes : List Nat := []
   procs : List (Nat × Nat × Bool) := []     -- proc, node, record
   rules : List (Nat × SRule) := []
-  net : McNet := {}
+  net : McNet := { maxDelay := delayBits "2" }
   cbs : List (List String) := []
   sys : Option Sys := none                  -- built lazily at the first run
   collected : List Sys := []
@@ -148,6 +148,8 @@ def netOp (n : McNet) : List String → McNet
     let g2 := ((rest.dropWhile (· != "/")).drop 1).map name!
     n.partition g1 g2
   | ["reset"] => n.reset
+  | ["delay", d] => { n with maxDelay := delayBits d }
+  | ["delays", _, d] => { n with maxDelay := delayBits d }
   | _ => n
 
 def applyCb (cfg : Cfg) (h : Handler PState) (s : Sys) : List String → R Sys
